@@ -1,2 +1,6 @@
 #!/bin/sh
-exit 0
+set -e
+cd /verif/engine
+export GOFLAGS=-mod=mod GOPROXY=off GOSUMDB=off GOTOOLCHAIN=local
+mkdir -p /verif/bin /verif/evidence /verif/replays
+go build -o /verif/bin/gosym .
